@@ -19,6 +19,7 @@ func init() {
 		Assumptions: []string{"proto.Merge / Marshal+Unmarshal copy; select picks a ready case"},
 		Run:         runC13,
 		Controls: []Control{
+			{Name: "incoming-metadata-only-when-outgoing", File: "pkg/wrap/wrap.go", Old: "\tctx = metadata.NewIncomingContext(ctx, md)\n", New: "\tif len(md) > 0 {\n\t\tctx = metadata.NewIncomingContext(ctx, md)\n\t}\n", Expect: "R13.4"},
 			{Name: "revert-F34-eof-is-the-outcome", File: "pkg/wrap/wrap.go", Old: "if err := cs.SendMsg(args); err != nil && err != io.EOF {", New: "if err := cs.SendMsg(args); err != nil {", More: []Edit{{File: "pkg/wrap/wrap.go", Old: "\t\"io\"\n", New: ""}}, Expect: "R13.9"},
 			{Name: "unknown-method-internal", File: "pkg/wrap/wrap.go", Old: "var ErrMethodNotFound = status.Error(codes.Unimplemented, \"method not found\")", New: "var ErrMethodNotFound = status.Error(codes.Internal, \"method not found\")", Expect: "R13.2"},
 			{Name: "shape-check-after-go", File: "pkg/wrap/wrap.go", Old: "\tif matched.ServerStreams != desc.ServerStreams || matched.ClientStreams != desc.ClientStreams {\n\t\treturn nil, ErrMethodShape\n\t}\n", New: "\tif matched.ServerStreams != desc.ServerStreams {\n\t\treturn nil, ErrMethodShape\n\t}\n", Expect: "R13.2"},
@@ -406,7 +407,8 @@ func r134(c *an.Ctx) {
 	cloneQ := an.ModulePath + "/pkg/wrap.cloneMD"
 	if fn := mustFunc(c, rule, wrapPkg, "wrapper", "startStream"); fn != nil {
 		ok := false
-		for _, call := range an.CallsTo(fn, "google.golang.org/grpc/metadata.NewIncomingContext") {
+		for _, vc := range an.CallsToDeep(fn, "google.golang.org/grpc/metadata.NewIncomingContext") {
+			call := vc.Inner
 			for _, v := range an.ValuesAt(call.Common().Args[1]) {
 				if cl, isCall := v.(*ssa.Call); isCall && an.CalleeName(cl) == cloneQ {
 					for _, s := range an.ValuesAt(cl.Call.Args[0]) {
@@ -419,6 +421,19 @@ func r134(c *an.Ctx) {
 				}
 			}
 		}
+		// ... on every path: the context handed to the server always gets its incoming metadata replaced (with the
+		// clone, possibly empty), otherwise the CALLER's own incoming metadata leaks into the wrapped server
+		always := true
+		sites := map[ssa.Instruction]bool{}
+		for _, vc := range an.CallsToDeep(fn, "google.golang.org/grpc/metadata.NewIncomingContext") {
+			if vc.Must {
+				sites[vc.Site] = true
+			}
+		}
+		if t, _ := (an.PathQuery{Target: func(x ssa.Instruction) bool { _, isRet := x.(*ssa.Return); return isRet }, Avoid: func(x ssa.Instruction) bool { return sites[x] }}).From(fn, nil); t != nil {
+			always = false
+		}
+		c.Check(always && len(sites) > 0, rule, "(*pkg/wrap.wrapper).startStream|incoming metadata is replaced on every path", fn.Pos(), "", "a path of startStream returns without metadata.NewIncomingContext: when the caller has no outgoing metadata but carries incoming metadata (a client used inside a handler), the wrapped server sees the caller's incoming metadata - a real connection delivers none of it")
 		c.Check(ok, rule, "(*pkg/wrap.wrapper).startStream|incoming metadata is a clone of the outgoing metadata", fn.Pos(), "", "the server's incoming metadata is not cloneMD(the client's outgoing metadata): client and server share (and race on) one metadata map")
 	}
 	if fn := mustFunc(c, rule, wrapPkg, "", "collectMetadata"); fn != nil {
@@ -601,12 +616,25 @@ func rootLoad(v ssa.Value) ssa.Value {
 
 // r138: a unary Invoke hands header and trailer metadata to the call options whatever the outcome of
 // the call (a real connection delivers trailers with an error status too).
+// invokeClientHalf: the function holding the client side of a unary call (Invoke itself, or the helper it hands
+// the exchange to).
+func invokeClientHalf(fn *ssa.Function, method string) *ssa.Function {
+	if b := an.BodyWith(fn, func(in ssa.Instruction) bool {
+		call, ok := in.(*ssa.Call)
+		return ok && call.Call.IsInvoke() && call.Call.Method.Name() == method
+	}); b != nil {
+		return b
+	}
+	return fn
+}
+
 func r138(c *an.Ctx) {
 	const rule = "R13.8"
 	fn := mustFunc(c, rule, wrapPkg, "wrapper", "Invoke")
 	if fn == nil {
 		return
 	}
+	fn = invokeClientHalf(fn, "RecvMsg")
 	var recv ssa.Instruction
 	an.Instrs(fn, func(in ssa.Instruction) {
 		if call, ok := in.(*ssa.Call); ok && call.Call.IsInvoke() && call.Call.Method.Name() == "RecvMsg" {
@@ -647,6 +675,7 @@ func r139(c *an.Ctx) {
 	if fn == nil {
 		return
 	}
+	fn = invokeClientHalf(fn, "SendMsg")
 	cons := "(*pkg/wrap.wrapper).Invoke|io.EOF from sending is not the call's outcome"
 	n := 0
 	bad := ""
